@@ -1460,8 +1460,11 @@ func (t *State) processUnconfirmTxs(block *pb.InternalBlock, batch kvdb.Batch, n
 			localVersion := xmodel.MakeVersion(txInputExt.RefTxid, txInputExt.RefOffset)
 			remoteVersion := keysVersionInBlock[string(bucketAndKey)]
 			if localVersion != remoteVersion && remoteVersion != "" {
-				txidInVer := xmodel.GetTxidFromVersion(remoteVersion)
-				if _, known := unconfirmTxMap[string(txidInVer)]; known {
+				// no conflict when the version read was written by a transaction that stays pending: it builds on
+				// what the block writes. A version that is confirmed (before or by this block) and differs from the
+				// one the block leaves behind has been superseded - also when the superseding transaction of the
+				// block comes from this pool (reader admitted before the overwriter, block confirms the overwriter only)
+				if _, pending := unconfirmTxMap[string(txInputExt.RefTxid)]; pending && !txidsInBlock[string(txInputExt.RefTxid)] {
 					continue
 				}
 				t.log.Warn("inputs version conflict", "key", bucketAndKey, "localVersion", localVersion, "remoteVersion", remoteVersion)
